@@ -388,6 +388,38 @@ theorem M_is_fisher_categorical {K : Type} [CommRing K] {n : Nat} (p : Fin n →
   · have hki : ¬ k = i := fun e => hik e.symm
     simp only [if_neg hik, if_neg hki]; ring
 
+/-- the score used in `M_is_fisher_categorical`: for one distribution with logits `z`, the documented negative
+    log-probability of category `c` is `log Σ_j exp z_j − z_c`; its derivative w.r.t. `z_i` is `p_i − δ_ic` -/
+theorem categorical_score {n : Nat} (z : Fin n → ℝ) (c i : Fin n) :
+    HasDerivAt (fun x => Real.log (∑ j, Real.exp (Function.update z i x j)) - Function.update z i x c)
+      (Real.exp (z i) / (∑ j, Real.exp (z j)) - (if i = c then 1 else 0)) (z i) := by
+  have hterm : ∀ j, HasDerivAt (fun x => Real.exp (Function.update z i x j))
+      (if j = i then Real.exp (z i) else 0) (z i) := by
+    intro j
+    by_cases h : j = i
+    · subst h
+      simp only [Function.update_self, if_true]
+      exact Real.hasDerivAt_exp (z j)
+    · simp only [Function.update_of_ne h, if_neg h]
+      exact hasDerivAt_const _ _
+  have hsum := HasDerivAt.fun_sum (u := Finset.univ) (fun j _ => hterm j)
+  have hval : (∑ j, Real.exp (Function.update z i (z i) j)) = ∑ j, Real.exp (z j) := by
+    rw [Function.update_eq_self]
+  have hpos : (∑ j, Real.exp (Function.update z i (z i) j)) ≠ 0 := by
+    rw [hval]
+    exact (Finset.sum_pos (fun j _ => Real.exp_pos (z j)) ⟨i, Finset.mem_univ i⟩).ne'
+  have hlog := hsum.log hpos
+  have hlin : HasDerivAt (fun x => Function.update z i x c) (if i = c then 1 else 0) (z i) := by
+    by_cases h : i = c
+    · subst h
+      simp only [Function.update_self, if_true]
+      exact hasDerivAt_id' (z i)
+    · have h' : c ≠ i := fun e => h e.symm
+      simp only [Function.update_of_ne h', if_neg h]
+      exact hasDerivAt_const _ _
+  refine (hlog.sub hlin).congr_deriv ?_
+  rw [hval, Finset.sum_ite_eq' Finset.univ i, if_pos (Finset.mem_univ i)]
+
 /-! ## composition preserves the identities -/
 
 /-- `LikelihoodWithModel` / `amend`: `M = Jᴴ M_lh J`, `L = Jᴴ L_lh`, `R = R_lh J` -/
